@@ -55,6 +55,39 @@ def lower_pow(ctx: LoweringContextProtocol, eqn: Any) -> None:
     if callable(producer) and producer() is not None:
         desired_name = ctx.fresh_name("pow_out")
 
+    # Integer base with a small constant integer exponent: ONNX Pow accepts int32 / int64
+    # bases only and runtimes evaluate it in floating point; repeated Mul is valid for every
+    # integer type and wraps exactly like XLA.
+    const_exp = getattr(exponent_var, "val", None)
+    if (
+        np.issubdtype(target_dtype, np.integer)
+        and const_exp is not None
+        and np.ndim(const_exp) == 0
+        and np.issubdtype(np.asarray(const_exp).dtype, np.integer)
+        and 1 <= int(const_exp) <= 16
+    ):
+        out_enum = _dtype_to_ir(target_dtype, ctx.builder.enable_double_precision)
+        out_shape = tuple(getattr(out_var.aval, "shape", ()))
+        n_mul = int(const_exp) - 1
+        if n_mul == 0:
+            result = cast(
+                ir.Value, ctx.builder.Identity(base_val, _outputs=[desired_name])
+            )
+        else:
+            result = base_val
+            for step in range(n_mul):
+                name = desired_name if step == n_mul - 1 else ctx.fresh_name("pow_mul")
+                result = cast(
+                    ir.Value, ctx.builder.Mul(result, base_val, _outputs=[name])
+                )
+                result.type = ir.TensorType(out_enum)
+                _stamp_type_and_shape(result, out_shape)
+                _ensure_value_metadata(ctx, result)
+        result.type = ir.TensorType(out_enum)
+        _stamp_type_and_shape(result, out_shape)
+        ctx.bind_value_for_var(out_var, result)
+        return
+
     result = cast(
         ir.Value, ctx.builder.Pow(base_val, exp_input, _outputs=[desired_name])
     )
